@@ -47,7 +47,23 @@ func (Engine) Generate(prop, tier string, run int, seed uint64) *kernel.Scenario
 	case "C06":
 		return genC06(r, tier)
 	case "C03", "C04":
-		return genSettleScenario(r, prop)
+		sc := genSettleScenario(r, prop)
+		if ir := kernel.NewRand(kernel.Derive(seed, "impatient-settlement")); prop == "C03" && ir.Bool(0.08) {
+			// impatient users and a short challenge period: every Settle attempt
+			// gets 300 ms, so that attempts end while waiting for the challenge
+			// period or inside Withdraw and later attempts meet a channel that is
+			// registered (or concluded) already; every lock boundary yields
+			c := sc.Config
+			c["short_settle_ctx"], c["yield_pct"], c["long_yields"] = 1, 100, int64(ir.Intn(2))
+			c["event_max_us"] = int64([]int{200, 3000}[ir.Intn(2)])
+			c["ledger_max_us"] = int64([]int{200, 2000}[ir.Intn(2)])
+			for i := range sc.Steps {
+				if sc.Steps[i].Op == "open" {
+					sc.Steps[i].A["challenge"] = 1
+				}
+			}
+		}
+		return sc
 	case "C08":
 		if r.Bool(0.2) {
 			return genC08V(r)
